@@ -79,6 +79,9 @@ macro_rules! text_harness {
 //@ C15 c15_mission_line_n3 quick default,bounded BOUNDED encoded length 3, first line (transcoder stubbed in both directions): a mission.msg text line is 64 bytes, and for every cipher key (stage, scene, player) the reader's added stream undoes the writer's subtracted stream: the decoder receives exactly the encoded bytes
 text_harness!(c15_mission_line_n3, 3);
 
+// (A round trip of a whole TH125 entry - header + six ciphered lines, where writer and reader derive the
+// cipher key separately - was tried: no verdict in 600 s.  Only the line codec with a shared key is under contract.)
+
 #[cfg(kani)]
 #[path = "/verif/.cache/playback/mission.rs"]
 mod playback;
